@@ -363,3 +363,40 @@ def run(ck, m):
                   '(e.g. `increment k 0` on an absent key leaves it <Empty> and unlisted, on a non-numeric value answers Ok)' % (v, bad),
                   '%s:%s' % (cb.file, cb.line))
     ck.floor('C01.h', nh, 3, 'mutation arm closures')
+
+    # ---- C01.i: the command text reaches the parser with nothing but its line end removed ---------
+    # The value is the tail of the line: a blank-stripping call between the transport and the parser
+    # (trim, trim_end, split_whitespace…) changes what `set k "v  "` stores, and what increment accepts.
+    from nl.locks import backward_slice
+    IDENT = ('std::string::String::from', 'std::convert::From::from', 'std::ops::Deref::deref', 'std::string::ToString::to_string',
+             'std::string::String::as_str', 'std::borrow::Borrow::borrow', 'std::convert::AsRef::as_ref', 'std::clone::Clone::clone',
+             'std::borrow::ToOwned::to_owned', 'std::str::to_owned', 'std::str::to_string', 'std::string::String::as_ref',
+             'std::str::len', 'std::str::is_empty', 'std::string::String::len', 'std::string::String::is_empty')
+    PATTERNED = ('std::str::trim_matches', 'std::str::trim_start_matches', 'std::str::trim_end_matches',
+                 'std::str::strip_suffix', 'std::str::strip_prefix')
+    ne = 0
+    for name in sorted(m.reentry_names()):
+        eb = P.bodies.get(name)
+        if eb is None:
+            continue
+        for x, tx in eb.calls():
+            if not callee(tx).endswith('Request>::parse'):
+                continue
+            ne += 1
+            extra = []
+            for c in sorted(backward_slice(eb, tx['args'][0])[0]):
+                tc = eb.term(c)
+                dcl = callee_decl(tc)
+                if dcl in IDENT or is_log(tc) or not (dcl.startswith('std::str::') or dcl.startswith('std::string::String::')):
+                    continue
+                if dcl in PATTERNED:
+                    pats = [const_val(r) for a_ in tc['args'][1:] for r in origins(eb, a_) if r[0] == 'const']
+                    if pats and all(p_ in (10, '\n', 13, '\r') or (isinstance(p_, str) and p_ and set(p_) <= set('\r\n')) for p_ in pats):
+                        continue
+                extra.append(dcl.split('::')[-1])
+            ck.ob('C01.i', short(eb.id), 'text-reaches-parser-verbatim', not extra,
+                  'the request entry hands the command text to the parser with only its line end removed' if not extra else
+                  'the request entry applies %s to the command text before parsing: the value is the tail of the line, so '
+                  '`set k "v  "` stores "v" and `set k "5 "` becomes a number that increment accepts — get returns a value that was never written'
+                  % extra, eb.loc(x))
+    ck.floor('C01.i', ne, 1, 'request entries that call the parser')
